@@ -87,6 +87,21 @@ theorem cleanup_null_iff_zero (A : Allocator) (hA : Lawful A) (h : Heap) (size a
       subst hcl
       exact ⟨rfl, by rw [this.2.1]; exact List.mem_cons_self⟩
 
+/-- **The poison loop of `Cleanup::drop` stays inside the block** (model): the bytes it writes are exactly
+`[ptr, ptr + size)` — every address outside keeps its contents, every address inside becomes 0xff — and
+the ledger is untouched; the only allocator call that follows is the `dealloc` of that layout.
+This is a statement about the MODEL's loop bound (`0..layout.size()`); that the real loop has this bound
+is what the guard-byte (canary) monitor of the harness checks on every drop, for sizes that are not a
+multiple of the word size in particular (seeded mutant C24c: word-at-a-time poisoning rounded up). -/
+theorem cleanup_drop_writes_within_block (h : Heap) (c : Cleanup) :
+    (∀ a, ¬ (c.ptr ≤ a ∧ a < c.ptr + c.size) → (cleanupPoison h c).mem a = h.mem a) ∧
+    (∀ a, c.ptr ≤ a ∧ a < c.ptr + c.size → (cleanupPoison h c).mem a = 255) ∧
+    (cleanupPoison h c).live = h.live ∧
+    (∀ A : Allocator, cleanupDrop A h c = (A.exec (cleanupPoison h c) (.dealloc c.ptr c.size c.align)).2) := by
+  refine ⟨?_, ?_, rfl, fun _ => rfl⟩
+  · intro a ha; simp [cleanupPoison, ha]
+  · intro a ha; simp [cleanupPoison, ha]
+
 /-- `cabi_dealloc` does nothing for size zero and otherwise frees exactly the given layout. -/
 theorem cabi_dealloc_noop_on_zero (A : Allocator) (h : Heap) (ptr size align : Nat) :
     (size = 0 → cabiDealloc A h ptr size align = h ∧ cabiDeallocCall ptr size align = none) ∧
